@@ -6,7 +6,7 @@ out=/tmp/seed/recheck; rm -rf $out; mkdir -p $out
 one() {
   d=$1; id=$(basename $d); wt=/tmp/wt/rc_$id
   git -C /repo worktree add -q --detach $wt HEAD 2>/dev/null || { echo "$id worktree-failed"; return; }
-  demo=$(ls $d/demo_repaired_tree.py $d/demo.* 2>/dev/null | head -n 1)
+  demo=$d/demo_repaired_tree.py; [ -f $demo ] || demo=$(ls $d/demo.* | head -n 1)
   run() { case $demo in *.py) (cd $wt && PYTHONPATH=$wt timeout 1500 /venv/bin/python $demo > $2 2>&1);; *.sh) (cd $wt && PYTHONPATH=$wt timeout 1500 bash $demo $wt > $2 2>&1);; esac; echo $?; }
   a=$(run $wt /tmp/seed/recheck/$id.base.log)
   if git -C $wt apply $d/patch.diff 2>/dev/null; then b=$(run $wt /tmp/seed/recheck/$id.patch.log); else b=noapply; fi
